@@ -188,7 +188,7 @@ def main(run):
         for fi, f in enumerate(files):
             blk = []
             if fi % 5 == 0:  # a deprecated block contradicting the main part
-                for old, new, inv in tab_lines[:2]:
+                for old, new, inv in tab_lines[:3]:
                     t = TYPES.get(new)
                     if t == "bool":
                         blk.append({"n": old, "v": "y", "u": False, "d": False, "t": t, "blk": True})
